@@ -444,8 +444,10 @@ BindingsOf(w, m) ==
 \*             only bound because an import statement of the __init__ loaded that submodule
 \*   relmoved  a relative from-import that names a module some request may move or rename
 \*             (as its target, on the way to it, or as the imported name)
-\*   asmoved   an aliased from-import (from m import n as y) whose module some request may move or
-\*             take a definition out of
+\*   asmoved   an aliased from-import (from m import n as y) of something that is not a submodule
+\*             of m, where some request may move m or take a definition out of it
+\*   assub     an aliased from-import of a submodule (from p import m as y) that some request may
+\*             move or rename (itself or a package above it)
 \*   rootref   a plain import of a module some request may move, and a reference that starts with
 \*             the top-level name that import bound but does not go through that module
 \*   fromsub   a from-import whose imported name is a submodule of the package it names
@@ -488,9 +490,15 @@ TagsOfModule(w, m, exported) ==
                \/ \E it \in Range(b[i].items) : it.n \in { Last(p) : p \in w.msrc \cup w.reloc }
            THEN {"relmoved"} ELSE {})
      \cup (IF \E i \in DOMAIN b : b[i].k = "from" /\ ~IsStar(b[i]) /\
-               (\E it \in Range(b[i].items) : it.as # "") /\
+               (\E it \in Range(b[i].items) :
+                  it.as # "" /\ Append(FromTarget(w, m, b[i]), it.n) \notin Mods(w)) /\
                \E p \in w.msrc \cup w.reloc : IsPrefix(p, FromTarget(w, m, b[i]))
            THEN {"asmoved"} ELSE {})
+     \cup (IF \E i \in DOMAIN b : b[i].k = "from" /\ ~IsStar(b[i]) /\
+               \E it \in Range(b[i].items) :
+                  /\ it.as # "" /\ Append(FromTarget(w, m, b[i]), it.n) \in Mods(w)
+                  /\ \E p \in w.reloc : IsPrefix(p, Append(FromTarget(w, m, b[i]), it.n))
+           THEN {"assub"} ELSE {})
      \cup (IF \E i \in DOMAIN b : b[i].k = "import" /\
                \E it \in Range(b[i].items) :
                   /\ it.as = "" /\ Len(it.path) >= 2
